@@ -139,6 +139,11 @@ class Spec(object):
                                 '1.39', 'POST rp parent self'))
         if p2 not in d.providers:
             out.append(post({'name': 'rp2', 'uuid': p2}, '1.20', 'POST rp2 root@1.20'))
+            # other accepted spellings of the same uuid name the same provider
+            out.append(post({'name': 'rp2', 'uuid': p2.replace('-', '')}, '1.39',
+                            'POST rp2 root, uuid without dashes'))
+            out.append(post({'name': 'rp2', 'uuid': '{%s}' % p2}, '1.20',
+                            'POST rp2 root, uuid in braces'))
             par = p1 if p1 in d.providers else UNKNOWN_UUID
             out.append(post({'name': 'rp2', 'uuid': p2, 'parent_provider_uuid': par}, '1.39',
                             'POST rp2 child' if par == p1 else 'POST rp2 unknown parent'))
@@ -474,6 +479,9 @@ class Spec(object):
         swap = {k1: ent(k1, {}), k2: ent(k2, {p1: {'VCPU': 2}})}
         out.append(reqs.post_allocs(both, tag='POST allocs K1,K2'))
         out.append(reqs.post_allocs(swap, tag='POST allocs K1 cleared, K2 on P1'))
+        # the consumer named by an upper-case spelling of its uuid (the schema accepts it)
+        out.append(reqs.post_allocs({k1.upper(): ent(k1, {p1: {'VCPU': 1}})},
+                                    tag='POST allocs K1 in upper case'))
         # reshaper: move VCPU of P1 (inventory and every consumer's allocation) to P2
         moved = {}
         for k in self.cons:
